@@ -36,4 +36,5 @@ def run(F, rep):
             n += 1
         else:
             rep.inconclusive("C17.writers", path, "writes Lmer storage but has no lemma", site=F.site(w["body"], w["line"]))
-    rep.floor("Lmer storage writers covered by lemmas", 3, n)
+    if n == 0:
+        rep.inconclusive("C17.writers", "none-found", "no writer of Lmer storage was recognised")
